@@ -47,6 +47,10 @@ fn emit(out: &mut Out, class: &str, b: &[u8], counts: &mut std::collections::BTr
     e.0 += 1;
     let key = format!("decode:{} len={} bytes={}", class, b.len(), hex(&b[..b.len().min(80)]));
     out.oracle("C15:acceptance-set", r.is_ok() == acceptable(b), &key, &format!("decoder={} predicate={} full={}", r.is_ok(), acceptable(b), hex(b)));
+    let deg = match rrun::Proof::extension_degree_from_proof_bytes(b) {
+        Ok(d) => (d as usize).to_string(),
+        Err(_) => "err".to_string(),
+    };
     let real = match &r {
         Ok(p) => {
             e.1 += 1;
@@ -57,9 +61,9 @@ fn emit(out: &mut Out, class: &str, b: &[u8], counts: &mut std::collections::BTr
             let mut expect = (b.len() as u64).to_le_bytes().to_vec();
             expect.extend_from_slice(b);
             out.oracle("C15:serde-produces-same", ser == expect, &key, &format!("ser={}", hex(&ser)));
-            format!("ok reenc={} rounds={} tag={}", hex(&re), ((b.len() - 1) / 32 - 5 - b[0] as usize) / 2, p.extension_degree() as usize)
+            format!("ok reenc={} rounds={} tag={} deg={}", hex(&re), ((b.len() - 1) / 32 - 5 - b[0] as usize) / 2, p.extension_degree() as usize, deg)
         },
-        Err(_) => "err".to_string(),
+        Err(_) => format!("err deg={}", deg),
     };
     let mut framed = (b.len() as u64).to_le_bytes().to_vec();
     framed.extend_from_slice(b);
